@@ -55,6 +55,20 @@ def parseQuarter (s : String) : Option Int :=
     | _ => none
   frac.map (fun f => let v : Int := (iv * 4 + f : Nat); if neg then -v else v)
 
+/-- an element of a list against `Equals(s)` (no nesting: a list inside a list matches nothing) -/
+def elemEq (s : String) : DV → Bool
+  | .str x => x == s
+  | .bool b => b == truthy s
+  | .int n => parseIsize s == some n
+  | .flt q => parseQuarter s == some q
+  | _ => false
+def elemEqi (n : Int) : DV → Bool
+  | .int m => m == n
+  | _ => false
+def elemEqf (q : Int) : DV → Bool
+  | .flt r => r == q
+  | _ => false
+
 mutual
 /-- `DataValue::test` -/
 def dvTest : DV → DOp → Bool
@@ -81,14 +95,9 @@ def dvTest : DV → DOp → Bool
   | .dt t, .dtb u => t < u
   | .dt t, .dtae u => t ≥ u
   | .dt t, .dtbe u => t ≤ u
-  | .list l, .has s => l.any (fun e => match e with
-      | .str x => x == s
-      | .bool b => b == truthy s
-      | .int n => parseIsize s == some n
-      | .flt q => parseQuarter s == some q
-      | _ => false)
-  | .list l, .hasi n => l.any (fun e => match e with | .int m => m == n | _ => false)
-  | .list l, .hasf q => l.any (fun e => match e with | .flt r => r == q | _ => false)
+  | .list l, .has s => l.any (elemEq s)
+  | .list l, .hasi n => l.any (elemEqi n)
+  | .list l, .hasf q => l.any (elemEqf q)
   | v, .not o => !dvTest v o
   | v, .and os => dvAll v os
   | v, .or os => dvAny v os
